@@ -114,7 +114,9 @@ class Gen:
         if k < 0.68 and self.arrs:
             return [f"{r.choice(self.arrs)}[{self.int_expr(d - 1)} % 3] = {self.int_expr(d - 1)}"]
         if k < 0.72 and self.arrs:
-            return [f"{r.choice(self.arrs)}[{self.int_expr(d - 1)} % 3] += {self.int_expr(d - 1)}"]
+            # the index of an augmented subscript assignment is kept call-free: with a call in it the
+            # compiler evaluates the index twice (known finding, exact program in corpus/effects.json)
+            return [f"{r.choice(self.arrs)}[{r.choice(self.ints)} % 3] += {self.int_expr(d - 1)}"]
         if k < 0.84:
             self.nq += 1
             q = f"q{self.nq}"
